@@ -22,7 +22,7 @@ func c11Oracle(w *World, last Op) string {
 	if c == nil {
 		return ""
 	}
-	if last.K == 'C' || last.K == 'G' || last.K == 'B' || last.K == 'T' {
+	if last.K == 'C' || last.K == 'G' || last.K == 'B' || last.K == 'T' || last.K == 'Q' {
 		if f := recoverable(w.S, *c, "after "+last.String()); f != "" {
 			w.FailCP, w.FailStore = c, w.S
 			return f
@@ -31,7 +31,7 @@ func c11Oracle(w *World, last Op) string {
 	// crash points: every prefix of the log that ends inside the writes of the last operation
 	log := w.S.Snapshot()
 	prev := 0
-	appended := last.K == 'C' || last.K == 'B' || last.K == 'T' // these add a commit point
+	appended := last.K == 'C' || last.K == 'B' || last.K == 'T' || last.K == 'Q' // these add a commit point
 	if len(w.Commits) >= 2 && appended {
 		prev = w.Commits[len(w.Commits)-2].logLen
 	} else if appended {
@@ -39,7 +39,7 @@ func c11Oracle(w *World, last Op) string {
 	} else {
 		prev = c.logLen
 	}
-	if last.K != 'C' && last.K != 'G' && last.K != 'B' && last.K != 'T' {
+	if last.K != 'C' && last.K != 'G' && last.K != 'B' && last.K != 'T' && last.K != 'Q' {
 		return ""
 	}
 	for cut := prev; cut < len(log); cut++ {
@@ -79,7 +79,7 @@ func c11Classify(w *World, last Op, f string) seq.Outcome {
 				}
 			}
 			id := "C11-rewritten-node-collected"
-			if last.K == 'B' || last.K == 'T' {
+			if last.K == 'B' || last.K == 'T' || last.K == 'Q' {
 				id = "C13-rewritten-node-deleted"
 			}
 			if all && rt.OpenFinding(id) {
@@ -176,6 +176,10 @@ func C11(tier rt.Tier) int {
 	}
 	for _, c := range runs {
 		runCfg(rep, c, time.Now().Add(per), c11Classify)
+	}
+	if rt.Replay == nil || rt.Replay.Run == "width" {
+		// wide branches: up to 16 changed children of one branch in a single commit (the commit fans out over them)
+		wideCases(rep, tier, []int{1, 2}, true)
 	}
 	rep.Set("dedup", haveDump)
 	rep.Set("rule", "BFS over all histories of {Update, delete, re-add of identical content (two values only), Root() at any time, Commit(level)+batch.Commit, DeleteNodes anywhere and repeatedly, reload}; after every batch commit and every DeleteNodes a trie reopened from just (root hash, weight) on the same storage must equal the model: total weight and, for every block, owner, value and a verifying proof; for EVERY prefix of the storage write log inside the last operation the last durably committed root must be recoverable the same way")
